@@ -271,6 +271,11 @@ def check(a, pid, tier, work, t0):
         print("\n".join(errors))
         die("model evaluation failed")
     cases = json.load(open(os.path.join(outdir, "cases.json")))
+    mach = [(i, c) for i, c in failing if c & 4]
+    if mach:
+        # result bit 2: a spec self-validation case (e.g. the Coq parser against the standard library) failed
+        print("self-validation failed on %d case(s); first: %s" % (len(mach), json.dumps(cases[mach[0][0]])[:1500]))
+        die("the check's own specification/oracle machinery failed its self-validation (never a verdict about the code)")
 
     if a.replay:
         rec = cases[0]
